@@ -987,3 +987,176 @@ def class_memo_own(check: Check, funcs: Iterable[ast.AST], rule: str = "CLASS-ME
                  "; ".join(f"line {s.lineno}: `{unparse(s)}` finds `{c}.{a}` of a base class as well" for s, c, a in sites),
                  nontrivial=bool(sites))
     return n
+
+
+# --------------------------------------------------------------------------- #
+# KWARGS-COMPLETE, PARAM-READONLY, INDEPENDENT-KEYS
+
+
+def typed_dicts(repo: Repo) -> dict[str, list[str]]:
+    """name -> keys (own and inherited) of every `...Kwargs` TypedDict class of the package."""
+    classes = {c.name: c for m in repo.modules.values() for c in m.classes()}
+
+    def keys(name: str, seen: frozenset = frozenset()) -> list[str] | None:
+        c = classes.get(name)
+        if c is None or name in seen:
+            return None
+        out: list[str] = []
+        typed = False
+        for b in c.bases:
+            bn = unparse(b).split(".")[-1]
+            if bn == "TypedDict":
+                typed = True
+            else:
+                sub = keys(bn, seen | {name})
+                if sub is not None:
+                    typed = True
+                    out += sub
+        if not typed:
+            return None
+        out += [s.target.id for s in c.body if isinstance(s, ast.AnnAssign) and isinstance(s.target, ast.Name)]
+        return out
+
+    return {n: k for n in classes if n.endswith("Kwargs") for k in [keys(n)] if k}
+
+
+def kwargs_complete(check: Check, repo: Repo, mods: Iterable[Module], rule: str = "KWARGS-COMPLETE") -> int:
+    check.rule(
+        rule,
+        "the `...Kwargs` TypedDicts are the copy format of schema elements (to_kwargs() -> mapper -> constructor) and "
+        "are declared total=False, so the type checker accepts a literal that leaves a key out: every place that writes "
+        "one out in full - a call `XKwargs(k=..., ...)` or a dict literal annotated as XKwargs - names every key of the "
+        "TypedDict (own and inherited) unless it spreads another mapping into it. A copy that omits `deprecation_reason` "
+        "silently un-deprecates every argument that passes through sort/extend",
+    )
+    tds = typed_dicts(repo)
+    if len(tds) < 10:
+        raise AnalysisError(f"KWARGS-COMPLETE: TypedDicts not found ({len(tds)})")
+    n = 0
+    for m in mods:
+        for x in ast.walk(m.tree):
+            name, keys, spread = None, [], False
+            if isinstance(x, ast.Call) and isinstance(x.func, ast.Name) and x.func.id in tds:
+                name, keys, spread = x.func.id, [k.arg for k in x.keywords if k.arg], bool(x.args) or any(k.arg is None for k in x.keywords)
+            elif isinstance(x, ast.AnnAssign) and isinstance(x.value, ast.Dict) and unparse(x.annotation).strip("'\"") in tds:
+                name = unparse(x.annotation).strip("'\"")
+                keys = [k.value for k in x.value.keys if isinstance(k, ast.Constant)]
+                spread = any(k is None for k in x.value.keys)
+            if name is None:
+                continue
+            n += 1
+            missing = sorted(set(tds[name]) - set(keys))
+            check.ob(rule, x, f"{qualname_of(x)}: {name} written out", spread or not missing,
+                     f"all {len(tds[name])} keys" if not missing else ("spreads another mapping" if spread else f"omits {missing}: those attributes are reset to their defaults in the copy"))
+    return n
+
+
+_MUTATING_METHODS = {"append", "extend", "insert", "pop", "remove", "clear", "update", "setdefault", "popitem", "add", "discard", "sort", "reverse"}
+
+
+def param_mutations(fn: ast.AST) -> list[ast.AST]:
+    if isinstance(fn, ast.Lambda):
+        return []
+    ps = {a.arg for a in fn.args.posonlyargs + fn.args.args + fn.args.kwonlyargs} - {"self", "cls"}
+    out = []
+    for n in walk_body(fn):
+        base = None
+        if isinstance(n, (ast.Subscript, ast.Attribute)) and isinstance(n.ctx, (ast.Store, ast.Del)):
+            base = n.value
+        elif isinstance(n, ast.Call) and isinstance(n.func, ast.Attribute) and n.func.attr in _MUTATING_METHODS:
+            base = n.func.value
+        while isinstance(base, (ast.Subscript, ast.Attribute)):
+            base = base.value
+        if isinstance(base, ast.Name) and base.id in ps:
+            # re-bound locally before the write? then it is no longer the caller's object
+            rebound = any(isinstance(s, ast.Assign) and any(isinstance(t, ast.Name) and t.id == base.id for t in s.targets) and s.lineno < n.lineno
+                          for s in walk_body(fn))
+            if not rebound:
+                out.append(n)
+    return out
+
+
+def param_readonly(check: Check, funcs: Iterable[ast.AST], rule: str = "PARAM-READONLY") -> int:
+    check.rule(
+        rule,
+        "the schema transformers (map_schema_config, extend_schema, lexicographic_sort_schema, the builders) are pure: "
+        "no function of these modules stores into, deletes from or calls a mutating method on an object it received as a "
+        "parameter (<param>[k] = v, <param>.attr = v, <param>.append(...)). to_kwargs() hands out some containers "
+        "uncopied (GraphQLDirective.args), so writing through a parameter rewrites the *original* schema: after "
+        "extend_schema the old schema's directive arguments would carry the new schema's types",
+    )
+    fx = fixture("generic_controls")
+    check.control(f"{rule}:bad", bool(param_mutations(fx.get("param_readonly_bad"))), True)
+    check.control(f"{rule}:ok", bool(param_mutations(fx.get("param_readonly_ok"))), False)
+    n = 0
+    for fn in funcs:
+        if isinstance(fn, ast.Lambda):
+            continue
+        bad = param_mutations(fn)
+        n += 1
+        check.ob(rule, fn, f"{qualname_of(fn)}: parameters are read only", not bad,
+                 "no write through a parameter" if not bad else "; ".join(f"line {b.lineno}: `{unparse(b)[:50]}`" for b in bad[:3]) + " writes into the caller's object",
+                 nontrivial=bool(bad))
+    return n
+
+
+def independent_key_breaks(fn: ast.AST) -> list[tuple[ast.For, ast.Break]]:
+    """`break` in a loop over a fixed set of independent keys whose body stores one result per key."""
+    out = []
+    consts: dict[str, ast.AST] = {}
+    for s in walk_body(fn):
+        v = s.value if isinstance(s, (ast.Assign, ast.AnnAssign)) else None
+        tgt = (s.targets[0] if isinstance(s, ast.Assign) else s.target) if v is not None else None
+        if isinstance(tgt, ast.Name) and v is not None:
+            consts[tgt.id] = v
+
+    def fixed_keys(it: ast.AST) -> bool:
+        if isinstance(it, ast.Name) and it.id in consts:
+            it = consts[it.id]
+        if isinstance(it, (ast.Tuple, ast.List, ast.Set)) and it.elts and all(isinstance(e, ast.Constant) for e in it.elts):
+            return True
+        if isinstance(it, ast.Dict) and it.keys and all(isinstance(k, ast.Constant) for k in it.keys):
+            return True
+        if isinstance(it, ast.Call) and unparse(it.func) == "dict.fromkeys" and it.args:
+            return fixed_keys(it.args[0])
+        return False
+
+    for loop in walk_body(fn):
+        if not (isinstance(loop, ast.For) and isinstance(loop.target, ast.Name) and fixed_keys(loop.iter)):
+            continue
+        k = loop.target.id
+        stores = [x for s in loop.body for x in ast.walk(s) if isinstance(x, ast.Subscript) and isinstance(x.ctx, ast.Store)
+                  and isinstance(x.slice, ast.Name) and x.slice.id == k]
+        if not stores:
+            continue
+        for s in loop.body:
+            if isinstance(s, ast.If):
+                for b in s.body + s.orelse:
+                    if isinstance(b, ast.Break):
+                        out.append((loop, b))
+    return out
+
+
+def independent_keys(check: Check, funcs: Iterable[ast.AST], rule: str = "INDEPENDENT-KEYS") -> int:
+    check.rule(
+        rule,
+        "a loop over a fixed tuple of names that stores one result per name (`out[name] = ...`) treats the names "
+        "independently: it is not left with `break` when one of them has nothing to contribute. Folding the three root "
+        "operation types into `for operation in ('query', 'mutation', 'subscription')` with `if root is None: break` drops "
+        "the subscription root of every schema without a mutation type",
+    )
+    fx = fixture("generic_controls")
+    check.control(f"{rule}:bad", bool(independent_key_breaks(fx.get("independent_keys_bad"))), True)
+    check.control(f"{rule}:ok", bool(independent_key_breaks(fx.get("independent_keys_ok"))), False)
+    n = 0
+    for fn in funcs:
+        if isinstance(fn, ast.Lambda):
+            continue
+        bad = independent_key_breaks(fn)
+        if not bad and not any(isinstance(l, ast.For) for l in walk_body(fn)):
+            continue
+        n += 1
+        check.ob(rule, fn, f"{qualname_of(fn)}: loops over fixed keys", not bad,
+                 "no early break" if not bad else f"`break` at line {bad[0][1].lineno} leaves the remaining keys of `for {unparse(bad[0][0].target)} in {unparse(bad[0][0].iter)[:40]}` unprocessed",
+                 nontrivial=bool(bad))
+    return n
